@@ -126,6 +126,13 @@ func (ex *Exec) resultValue(sig *types.Signature, vals []Value) Value {
 func (ex *Exec) callValue(instr ssa.Instruction, c *ssa.CallCommon, fn Value, args []Value, pos token.Pos) Value {
 	sig := c.Signature()
 	name := calleeName(c)
+	ex.yield()
+	if name == "(*sync.Once).Do" {
+		ex.fireAnchorsBefore("call", name, c, args, pos)
+		res := ex.onceDo(c, args, pos)
+		ex.fireAnchorsCall("call", name, c, args, res, pos)
+		return res
+	}
 	ex.fireAnchorsBefore("call", name, c, args, pos)
 	var res Value
 	switch {
@@ -377,12 +384,22 @@ func (ex *Exec) applyContract(fc *FuncContract, key string, names []string, typs
 		if n != "" && n != "_" {
 			env.vars[n] = TV{v, rt}
 		}
+		env.vars[fmt.Sprintf("result%d", i)] = TV{v, rt}
 		if sig.Results().Len() == 1 {
 			env.vars["result"] = TV{v, rt}
 		}
 	}
 	for _, e := range fc.Ensures {
-		g := ex.evalBool(e.E, ex.st, env)
+		// a postcondition that mentions a local of the callee (or one of its anchor-bound names) says
+		// nothing to callers: it is skipped here (assuming less is sound)
+		var g Term
+		err := runGuarded(func() { g = ex.evalBool(e.E, ex.st, env) })
+		if err != nil {
+			if strings.Contains(err.Error(), "unknown identifier") {
+				continue
+			}
+			panic(unsupported(err.Error()))
+		}
 		ex.vc.Assume(ex.st.pc, g, "post of "+key)
 	}
 	if fc.Pragmas["noreturn"] != "" {
@@ -657,4 +674,62 @@ func (ex *Exec) placeOf(e Expr, st *State, env *Env) (PtrV, types.Type) {
 		return np, ft
 	}
 	panic(unsupported(fmt.Sprintf("place: unsupported lvalue %v", e)))
+}
+
+// yield: in a function marked `pragma concurrent yes`, other goroutines may run between any two
+// atomic actions; the shared ghost state is havocked subject to the declared rely relation, so only
+// facts that are stable under the rely survive a yield point.
+func (ex *Exec) yield() {
+	fc := ex.top.contract
+	if fc == nil || fc.Pragmas["concurrent"] != "yes" || len(fc.Shared) == 0 || ex.inYield {
+		return
+	}
+	ex.inYield = true
+	defer func() { ex.inYield = false }()
+	pre := ex.st.clone()
+	for _, g := range fc.Shared {
+		gt, ok := ex.specs.GhostFields[g]
+		if !ok {
+			panic(unsupported("shared: unknown ghost field " + g))
+		}
+		key := "ghost<" + g + ">"
+		srt := ArrSort(SInt, specSort(gt, ex))
+		ex.heapGet(key, srt)
+		ex.st.heap[key] = ex.vc.Fresh("Hy."+key, srt)
+		ex.noteHeapWrite(key)
+	}
+	env := ex.topEnv()
+	env.old = pre
+	for _, r := range fc.Rely {
+		ex.vc.Assume(ex.st.pc, ex.evalBool(r.E, ex.st, env), "rely")
+	}
+}
+
+// onceDo: (*sync.Once).Do(f) as one atomic step: runs f iff the Once has not fired yet.
+func (ex *Exec) onceDo(c *ssa.CallCommon, args []Value, pos token.Pos) Value {
+	o := ex.scalarOf(args[0])
+	key := "ghost<done>"
+	srt := ArrSort(SInt, SBool)
+	h := ex.heapGet(key, srt)
+	was := ex.vc.Define("oncedone", Sel(h, o))
+	ex.stubsUsed["(*sync.Once).Do [built in: runs f iff not done, then done]"] = true
+	base := ex.st
+	// branch 1: not yet done: run f
+	s1 := base.clone()
+	s1.pc = ex.vc.Define("pc", And(base.pc, Not(was)))
+	ex.st = s1
+	fv, ok := args[1].(FuncV)
+	if !ok || fv.Fn == nil {
+		panic(unsupported("Once.Do with a non-literal function"))
+	}
+	saveY := ex.inYield
+	ex.inYield = true // f runs inside the atomic step
+	ex.inlineCall(c, fv, nil, pos, ex.findContract(fv.Fn))
+	ex.inYield = saveY
+	ex.hStore1(key, srt, o, TTrue)
+	s1 = ex.st
+	s2 := base.clone()
+	s2.pc = ex.vc.Define("pc", And(base.pc, was))
+	ex.st = ex.mergeStates([]*State{s1, s2})
+	return TupleV{}
 }
